@@ -444,7 +444,7 @@ class Model:
 
 def extern_eval(fnname, rest: bytes):
     """mirror of the harness extern functions: ('ok', value-tree, nbytes) | ('err', msg)"""
-    if fnname == "ext_ident":
+    if fnname in ("ext_ident", "ext_nested"):
         n = 0
         while n < len(rest) and 97 <= rest[n] <= 122:
             n += 1
